@@ -550,6 +550,23 @@ def validate (g : Grammar) (data : List (Name × Val)) : Bool × Grammar :=
 /-- `to_json()`: always rebuilt from the builder and the required names of the grammar. -/
 def toJson (g : Grammar) : Snap × Grammar := (g.snapNow, g)
 
+/-- Conversion of one element for `to_simple_grammar()` (`_get_names_to_types`). -/
+def convType : TS → Except Err TS
+  | .js n => (toPy n).map TS.py
+  | .py t => .ok (.py t)
+
+/-- An element with its converted type (unchanged when the conversion fails). -/
+def convElem (p : Name × TS) : Name × TS :=
+  (p.1, match convType p.2 with
+        | .ok t => t
+        | .error _ => p.2)
+
+/-- The exception raised by the first element that cannot be converted, if any. -/
+def firstConvError (props : List (Name × TS)) : Option Err :=
+  props.findSome? (fun p => match convType p.2 with
+                            | .error e => some e
+                            | .ok _ => none)
+
 /-- `to_simple_grammar()`: the new `SimpleGrammar` (or the grammar itself when it is simple) and the
     source afterwards (`_get_names_to_types` reads the `schema` property). -/
 def toSimple (g : Grammar) : Except Err (Grammar × Grammar) :=
@@ -558,11 +575,10 @@ def toSimple (g : Grammar) : Except Err (Grammar × Grammar) :=
   | .json =>
     let g1 := g.fillSchema
     let props := g1.schemaView.props
-    match props.mapM (fun p => match p.2 with
-                               | .js n => (toPy n).map (fun t => (p.1, TS.py t))
-                               | .py t => .ok (p.1, TS.py t)) with
-    | .error e => .error e
-    | .ok el =>
+    match firstConvError props with
+    | some e => .error e
+    | none =>
+      let el := props.map convElem
       let s0 : Grammar := { Grammar.fresh .simple with elems := el }
       let s1 := reqAddAll s0 g.required
       .ok (setDefaultsChecked s1 g.defaults, g1)
